@@ -105,7 +105,7 @@ def binop(op, a, b):
         # disjoint bit ranges: a is a multiple of 2^k and b < 2^k
         for x, y in ((a, b), (b, a)):
             k = y.hi.bit_length()
-            if x.stride % (2 ** k) == 0 and x.lo % (2 ** k) == 0:
+            if (x.is_const() or x.stride % (2 ** k) == 0) and x.lo % (2 ** k) == 0:
                 return AV(lo=x.lo + y.lo, hi=x.hi + y.hi, stride=math.gcd(x.stride, y.stride if not y.is_const() else 0) if y.stride > 1 or y.is_const() else 1, deps=deps)
         raise Split(_pick(deps))
     if op == '&' and b.is_const() and a.lo >= 0:
